@@ -7,6 +7,8 @@ import (
 	"encoding/hex"
 	"fmt"
 	"hash"
+	"sync"
+	"sync/atomic"
 	"time"
 
 	"gosim/hb"
@@ -37,6 +39,11 @@ func DefaultKnobs() SchedKnobs {
 
 // Env is one simulated world.
 type Env struct {
+	// mu serialises every access of the simulated network, ZooKeeper and
+	// cluster model. In controlled mode it is never contended (one goroutine
+	// runs at a time); in free (-race) mode it keeps the harness itself free
+	// of data races.
+	mu     sync.Mutex
 	Seed   uint64
 	Rng    *rng.Rand
 	C      *hb.Cluster
@@ -77,10 +84,12 @@ type Env struct {
 	StableAt    time.Duration
 	StableStep  uint64
 
-	Quiet     bool // restrict scheduler to running goroutines (no time, no network); C13
-	QuietLog  []string
+	FreeMode   bool // free (-race) mode: goroutines are not scheduled by the simulator
+	freeQ      time.Duration
+	Quiet      bool // restrict scheduler to running goroutines (no time, no network); C13
+	QuietLog   []string
 	Stabilized bool
-	frozen    bool
+	frozen     atomic.Bool
 }
 
 // Stats are per-run reach counters.
@@ -114,7 +123,7 @@ func (e *Env) Now() time.Duration { return time.Since(e.T0) }
 
 // Ev records an event in the digest (and trace).
 func (e *Env) Ev(format string, a ...any) {
-	if e.frozen {
+	if e.frozen.Load() {
 		return
 	}
 	s := fmt.Sprintf(format, a...)
@@ -136,108 +145,149 @@ func (e *Env) Loop(done func() bool) string {
 	idleFor := time.Duration(0)
 	for {
 		simrt.Wait()
-		e.Step++
-		e.Stats.Steps++
-		simrt.SetStep(e.Step)
-		if e.OnStep != nil {
-			e.OnStep()
+		reason, sleep, early, rel := e.step(done, &idleFor)
+		if reason != "" {
+			return reason
 		}
-		if e.Invariant != nil {
-			if err := e.Invariant(); err != nil {
-				e.StopErr = err
-				return "invariant"
-			}
-		}
-		if e.StopErr != nil {
-			return "stopped"
-		}
-		if done() {
-			return "done"
-		}
-		if e.Step >= e.Knobs.MaxSteps {
-			return "steps"
-		}
-		if e.Now() >= e.Knobs.MaxFake {
-			return "time"
-		}
-		if e.fireFaults() {
-			continue
-		}
-		// enabled set
-		gs := simrt.ParkedGs(e.gbuf)
-		e.gbuf = gs
-		var execC, delivC []*Conn
-		if !e.Quiet {
-			for _, c := range e.Conns {
-				if c.execEnabled() {
-					execC = append(execC, c)
-				}
-				if c.deliverEnabled() {
-					delivC = append(delivC, c)
-				}
-			}
-		}
-		if len(gs) == 0 && len(execC) == 0 && len(delivC) == 0 {
-			if e.Quiet {
-				return "quiet-idle"
-			}
-			// nothing to do but let time pass
+		switch {
+		case rel != nil:
+			simrt.Release(rel)
+		case sleep > 0:
 			before := e.Now()
-			simrt.Sleep(e.Knobs.MaxIdle, true)
+			if e.FreeMode && early {
+				// nobody parks in free mode, so there is no early wake-up: let
+				// time pass in quanta that grow while nothing happens
+				if e.freeQ == 0 {
+					e.freeQ = time.Millisecond
+				}
+				sleep = e.freeQ
+				if e.freeQ < 2*time.Second {
+					e.freeQ *= 2
+				}
+				simrt.Sleep(sleep, false)
+			} else {
+				simrt.Sleep(sleep, early)
+			}
 			d := e.Now() - before
+			e.mu.Lock()
 			e.Stats.Advance++
 			e.Stats.FakeNS += int64(d)
-			e.Ev("T+%d", int64(d))
-			if len(simrt.ParkedGs(e.gbuf)) == 0 {
-				idleFor += d
-				if idleFor >= 3*e.Knobs.MaxIdle {
-					return "idle"
+			if early {
+				e.Ev("T+%d", int64(d))
+				if len(simrt.ParkedGs(e.gbuf)) == 0 && !e.anyEnabled() {
+					idleFor += d
+				} else {
+					idleFor = 0
 				}
 			} else {
-				idleFor = 0
+				e.Ev("S+%d", int64(d))
 			}
-			continue
-		}
-		idleFor = 0
-		if !e.Quiet && e.Knobs.Starve > 0 && e.Rng.Chance(e.Knobs.Starve) {
-			ds := []time.Duration{time.Millisecond, 5 * time.Millisecond, 20 * time.Millisecond, 200 * time.Millisecond, 2 * time.Second}
-			d := ds[e.Rng.Intn(len(ds))]
-			simrt.Sleep(d, false)
-			e.Stats.Advance++
-			e.Stats.FakeNS += int64(d)
-			e.Ev("S+%d", int64(d))
-			continue
-		}
-		w := []float64{0, 0, 0}
-		if len(gs) > 0 {
-			w[0] = e.Knobs.WRun
-		}
-		if len(execC) > 0 {
-			w[1] = e.Knobs.WExec
-		}
-		if len(delivC) > 0 {
-			w[2] = e.Knobs.WDeliver
-		}
-		switch e.Rng.Pick(w) {
-		case 0:
-			var g *simrt.G
-			if e.lastG != nil && e.lastG.Parked() && e.Rng.Chance(e.Knobs.Sticky) {
-				g = e.lastG
-			} else {
-				g = gs[e.Rng.Intn(len(gs))]
+			e.mu.Unlock()
+			if early && idleFor >= 3*e.Knobs.MaxIdle {
+				return "idle"
 			}
-			e.lastG = g
-			e.Stats.RunG++
-			e.Ev("G%d %s", g.Seq, g.Site)
-			simrt.Release(g)
-		case 1:
-			c := execC[e.Rng.Intn(len(execC))]
-			c.execOne()
-		case 2:
-			c := delivC[e.Rng.Intn(len(delivC))]
-			c.deliverSome()
 		}
 	}
+}
+
+func (e *Env) anyEnabled() bool {
+	for _, c := range e.Conns {
+		if c.execEnabled() || c.deliverEnabled() {
+			return true
+		}
+	}
+	return false
+}
+
+// step performs one scheduler decision under the environment lock. It returns
+// a reason to stop, or what the caller has to do after unlocking: sleep, or
+// release a goroutine.
+func (e *Env) step(done func() bool, idleFor *time.Duration) (reason string, sleep time.Duration, early bool, rel *simrt.G) {
+	e.mu.Lock()
+	defer e.mu.Unlock()
+	e.Step++
+	e.Stats.Steps++
+	simrt.SetStep(e.Step)
+	if e.OnStep != nil {
+		e.OnStep()
+	}
+	if e.Invariant != nil {
+		if err := e.Invariant(); err != nil {
+			e.StopErr = err
+			return "invariant", 0, false, nil
+		}
+	}
+	if e.StopErr != nil {
+		return "stopped", 0, false, nil
+	}
+	if done() {
+		return "done", 0, false, nil
+	}
+	if e.Step >= e.Knobs.MaxSteps {
+		return "steps", 0, false, nil
+	}
+	if e.Now() >= e.Knobs.MaxFake {
+		return "time", 0, false, nil
+	}
+	if e.fireFaults() {
+		return "", 0, false, nil
+	}
+	gs := simrt.ParkedGs(e.gbuf)
+	e.gbuf = gs
+	var execC, delivC []*Conn
+	if !e.Quiet {
+		for _, c := range e.Conns {
+			if c.execEnabled() {
+				execC = append(execC, c)
+			}
+			if c.deliverEnabled() {
+				delivC = append(delivC, c)
+			}
+		}
+	}
+	if len(gs) == 0 && len(execC) == 0 && len(delivC) == 0 {
+		if e.Quiet {
+			return "quiet-idle", 0, false, nil
+		}
+		// nothing to do but let time pass
+		return "", e.Knobs.MaxIdle, true, nil
+	}
+	*idleFor = 0
+	e.freeQ = 0
+	if !e.Quiet && e.Knobs.Starve > 0 && e.Rng.Chance(e.Knobs.Starve) {
+		ds := []time.Duration{time.Millisecond, 5 * time.Millisecond, 20 * time.Millisecond, 200 * time.Millisecond, 2 * time.Second}
+		return "", ds[e.Rng.Intn(len(ds))], false, nil
+	}
+	w := []float64{0, 0, 0}
+	if len(gs) > 0 {
+		w[0] = e.Knobs.WRun
+	}
+	if len(execC) > 0 {
+		w[1] = e.Knobs.WExec
+	}
+	if len(delivC) > 0 {
+		w[2] = e.Knobs.WDeliver
+	}
+	switch e.Rng.Pick(w) {
+	case 0:
+		var g *simrt.G
+		if e.lastG != nil && e.lastG.Parked() && e.Rng.Chance(e.Knobs.Sticky) {
+			g = e.lastG
+		} else {
+			g = gs[e.Rng.Intn(len(gs))]
+		}
+		e.lastG = g
+		e.Stats.RunG++
+		e.Ev("G%d %s", g.Seq, g.Site)
+		return "", 0, false, g
+	case 1:
+		c := execC[e.Rng.Intn(len(execC))]
+		c.execOne()
+	case 2:
+		c := delivC[e.Rng.Intn(len(delivC))]
+		c.deliverSome()
+	}
+	return "", 0, false, nil
 }
 
 // Drain runs the loop with all workload done until the world is quiet: no
